@@ -326,7 +326,7 @@ package channel
 // errsAtHead: ghost snapshot of the number of errors handed over so far, taken at the top of every iteration
 //@ ghost errsAtHead int
 //@ chanmode Channel.Errs count
-//@ func (*Channel).read [C06 C16 C01]
+//@ func (*Channel).read [C06 C16]
 //@   maintains RI(c.Q)
 //@   requires c.Errs != c.Q.depthChan
 //@   modifies c.readLoopExited, c.Q.queue, c.Q.depth, chan(c.Q.depthChan), chan(c.Errs), errsAtHead, chunk, alloc()
